@@ -208,11 +208,15 @@ static int run_forked(const char *prop, const struct sim_plan *plan,
     }
     if (!replay && tape != NULL) {
         uint32_t n = shm->tape.n;
-        if (n > tape->cap) {
+        if (n > tape->cap || tape->e == NULL) {
+            tape->e = realloc(tape->e, (n + 1) * sizeof(*tape->e));
+            tape->cap = n + 1;
+        } else if (0) {
             tape->e = realloc(tape->e, n * sizeof(*tape->e));
             tape->cap = n;
         }
-        memcpy(tape->e, shm->ent, n * sizeof(*tape->e));
+        if (n)
+            memcpy(tape->e, shm->ent, n * sizeof(*tape->e));
         tape->n = n;
     }
     return out->cls;
@@ -250,7 +254,8 @@ static void tape_copy(struct sim_tape *dst, const struct sim_tape *src)
         dst->e = realloc(dst->e, (src->n + 1) * sizeof(*dst->e));
         dst->cap = src->n + 1;
     }
-    memcpy(dst->e, src->e, src->n * sizeof(*dst->e));
+    if (src->n)
+        memcpy(dst->e, src->e, src->n * sizeof(*dst->e));
     dst->n = src->n;
 }
 
